@@ -132,27 +132,22 @@ def doSign (w : World) (m : Msg) (s : Signer) : World × Msg × Outcome Bytes :=
         let m2 := { m1 with sig := s.reply }
         (w', m2, .ok (envelopeTree m2).enc)
 
-/-- `(*Evidence).Sign` (`validated = false`) and `ValidateAndSign` (`validated = true`) -/
+/-- the payload `Sign` (`validated = false`) / `ValidateAndSign` (`validated = true`) compute:
+    `ValidateAndSign` calls `Validate()` on the claims (a nil interface panics), `Sign` encodes
+    them as they are (a nil interface encodes as CBOR null) -/
+def signPayload (validated : Bool) (claims : Option Claims) : Outcome Bytes :=
+  match claims with
+  | none => if validated then .panic "nil claims" else .ok [0xf6]
+  | some c => (if validated then validate c else .ok ()).bind fun _ => encodeClaims c
+
+/-- `(*Evidence).Sign` / `(*Evidence).ValidateAndSign`: fresh message first, then payload, then `doSign` -/
 def evSign (validated : Bool) (w : World) (e : Ev) (s : Signer) : World × Ev × Outcome Bytes :=
-  match e.claims with
-  | none =>
-    -- ValidateAndSign calls Validate() on a nil interface; Sign encodes the nil interface as CBOR null
-    if validated then (w, { e with msg := some Msg.fresh }, .panic "nil claims")
-    else
-      let (w', m, r) := doSign w { Msg.fresh with payload := some [0xf6] } s
-      (w', { e with msg := some m }, r)
-  | some c =>
-    let pre : Outcome Unit := if validated then validate c else .ok ()
-    match pre with
-    | .err m => (w, { e with msg := some Msg.fresh }, .err m)
-    | .panic s => (w, { e with msg := some Msg.fresh }, .panic s)
-    | .ok _ =>
-      match encodeClaims c with
-      | .err m => (w, { e with msg := some Msg.fresh }, .err m)
-      | .panic s => (w, { e with msg := some Msg.fresh }, .panic s)
-      | .ok payload =>
-        let (w', m, r) := doSign w { Msg.fresh with payload := some payload } s
-        (w', { e with msg := some m }, r)
+  match signPayload validated e.claims with
+  | .err m => (w, { e with msg := some Msg.fresh }, .err m)
+  | .panic x => (w, { e with msg := some Msg.fresh }, .panic x)
+  | .ok payload =>
+    let r := doSign w { Msg.fresh with payload := some payload } s
+    (r.1, { e with msg := some r.2.1 }, r.2.2)
 
 /-- header maps whose validation by go-cose the model reproduces exactly: the empty protected
     header, or exactly `{1: <integer>}`; an empty unprotected map.  Anything else that is a
@@ -197,13 +192,14 @@ def evUnmarshal (urlNorm : Bytes → Dec Bytes) (extra : List Bytes) (e : Ev) (b
   | .err => ({ e with msg := some Msg.fresh }, .err)
   | .ood => ({ e with msg := some Msg.fresh }, .ood)
   | .ok m =>
+    -- a failed claims decode clears the claims and leaves a fresh message (fix 930c217)
     match m.payload with
-    | none => ({ claims := none, msg := some m }, .err)        -- decoding of an empty buffer fails
+    | none => ({ claims := none, msg := some Msg.fresh }, .err)        -- decoding of an empty buffer fails
     | some p =>
       match decodeClaims urlNorm extra p with
       | .ok c => ({ claims := some c, msg := some m }, .ok ())
-      | .err => ({ claims := none, msg := some m }, .err)
-      | .ood => ({ claims := none, msg := some m }, .ood)
+      | .err => ({ claims := none, msg := some Msg.fresh }, .err)
+      | .ood => ({ claims := none, msg := some Msg.fresh }, .ood)
 
 /-- the environment's knowledge that key `k` legitimately signed the token `bs` elsewhere -/
 def World.know (w : World) (k : Nat) (bs : Bytes) : World :=
